@@ -46,7 +46,7 @@ SWEEPS = ["qcow2", "vmdk-sparse", "vhd-dynamic", "vhdx"]
 FAMILIES = [["qcow2", "qcow2-snapshot", "qcow2-backing"], ["vmdk-sparse", "vmdk-flat", "vmdk-multi"], ["vhd-fixed", "vhd-dynamic"],
             ["vdi", "vdi-child"], ["hds", "hds-child", "hdd-storage"], ["vhdx", "vhdx-diff"]]
 # classes whose images are handed over as file objects (the others are opened by path by the library itself)
-HANDLE_CLASSES = ["qcow2", "qcow2-snapshot", "qcow2-backing", "vmdk-sparse", "vmdk-flat", "vhd-fixed", "vhd-dynamic", "vdi",
+HANDLE_CLASSES = ["qcow2", "qcow2-snapshot", "qcow2-backing", "vmdk-sparse", "vmdk-stream", "vmdk-cowd", "vmdk-sesparse", "vmdk-flat", "vhd-fixed", "vhd-dynamic", "vdi",
                   "vdi-child", "hds", "hds-child"]
 
 
@@ -73,7 +73,7 @@ def shards(tier):
             for a, b in itertools.combinations(fam, 2):
                 out.append({"buf": buf, "kind": "xpair", "cls": a, "cls2": b, "depth": 2 if q else 3})
     for buf in ([8192] if q else [512, 8192]):
-        for cls in CLASSES:
+        for cls in CLASSES + ["vmdk-stream", "vmdk-cowd", "vmdk-sesparse"]:
             if cls in HANDLE_CLASSES:
                 for hk in HANDLE_KINDS:
                     out.append({"buf": buf, "kind": "handles", "cls": cls, "handle": hk, "depth": 2})
@@ -153,6 +153,29 @@ def _build_image(cls, variant, buf):
         slots = _perm_slots(st, variant)
         cap = 5 * 8 - 3
         raw = B.build_hosted(st, slots, 8, 512, cap, layer=lay).tobytes()
+        disk = B.model(st, 8, cap, layer=lay)
+
+        def make():
+            v = VMDK(_bio(raw))
+            return v, v.read_sectors, _noop
+        return dict(make=make, disk=disk, unit=4096, sectors=True)
+    if cls in ("vmdk-stream", "vmdk-cowd", "vmdk-sesparse"):
+        # (handle shards only) the other sparse extent kinds: stream-optimised (grain directory located through the footer at
+        # the end of the byte stream), COWD, SE-sparse
+        from dissect.hypervisor.disk.vmdk import VMDK
+
+        from mc.builders import vmdk as B
+
+        st = _states5(variant, [HOLE, HOLE, DATA] if cls == "vmdk-cowd" else [HOLE, ZERO, DATA])
+        slots = _perm_slots(st, variant)
+        cap = 5 * 8 - 3
+        if cls == "vmdk-stream":
+            st = [B.CDATA if x == DATA else x for x in st]
+            raw = B.build_hosted(st, slots, 8, 512, cap, layer=lay, footer=True, compressed=True, stride=10).tobytes()
+        elif cls == "vmdk-cowd":
+            raw = B.build_cowd(st, slots, 8, cap, layer=lay).tobytes()
+        else:
+            raw = B.build_sesparse(st, slots, 8, 64, cap, layer=lay).tobytes()
         disk = B.model(st, 8, cap, layer=lay)
 
         def make():
@@ -676,6 +699,22 @@ def _make(ctx, im, cls):
     try:
         return im["make"]()
     except Exception as e:
+        hk = _handle["kind"]
+        if hk is not None:
+            # differential: the very same bytes are accepted through an in-memory handle, so the refusal is about the kind of
+            # file object, not about the image
+            _handle["kind"] = None
+            try:
+                im["make"]()
+                plain_ok = True
+            except Exception:
+                plain_ok = False
+            finally:
+                _handle["kind"] = hk
+            if plain_ok:
+                ctx.violation({"kind": "single", "cls": cls, "ops": [], "handle": hk},
+                              {"subject": cls + ".open", "kind": "refused-through-this-kind-of-handle", "handle": hk,
+                               "exc": type(e).__name__}, {"exception": repr(e)[:300]})
         ctx.extra[f"well-formed-image-refused:{cls}:{type(e).__name__}"] += 1
         raise _Refused() from e
 
